@@ -6,11 +6,12 @@ _COMMON_NOTE = ("Trusted: CPython's ast parser; documented semantics of NumPy / 
 
 _HYGIENE = (" Package-wide API-misuse rules run under every property, scoped to its anchor files and their call closure: no module-level state (GL1), value "
             "buffers not integer-typed (DT), getter views and getter results never modified in place (VW, AR), gap functions and observers pure (OBS, AL), "
-            "reshape follows nesting order (RS), own-column broadcasts (BC), integer options compared with None (TD), single-use iterators consumed once (L1). "
+            "reshape follows nesting order (RS), own-column broadcasts (BC), integer options and optional selections compared with None (TD), single-use iterators consumed once (L1), "
+            "results of memoised functions never modified in place (CM), decorators on anchor functions of known effect (DEC), coalition operator algebra and immutability (K3). "
             "The scope follows what the property quantifies over (every registered generator / gap function / computer). The incomplete-game object is "
             "checked as substrate under every property (G-sub): the G rules of game.py are evaluated and reported for the methods this property's code can "
             "reach - column discipline, guarded getters, copy / negation, bulk reset, compute_bounds runs the computer and stores nothing itself, no "
-            "per-object state besides the table; environments report without storing (OBS-E) where an environment is involved.")
+            "per-object state besides the table; environments report without storing and hold no getter array (OBS-E, OBS-V) where an environment is involved.")
 
 _THOROUGH = " Thorough tier additionally re-analyses AST-computed breaking variants (must fire) and benign twins (must stay silent) of the current tree."
 
